@@ -9,9 +9,10 @@
 //!     -> Interpreter::from_transaction(&tx, idx) + run():  `OK:<stack items>;<codeseparator_offset>` or ERR
 //!
 //! spend.build <kind> <tx> <idx> <value> <keys> <signers> <seps> <variant>
-//!     kind     p2pk | p2pkh | ms | raw
-//!              raw: <seps> is `<locking script descriptor>.<subscript descriptor>` (both taken as given); the
-//!              unlocking script pushes the signatures in order (variant 1: each followed by its public key)
+//!     kind     p2pk | p2pkh | ms | raw | rawd (raw with an OP_0 dummy element in front of the signatures)
+//!              raw: <seps> is `<locking script descriptor>.<subscript descriptor>[.<subscript of signer 2>...]` (taken as
+//!              given; the last subscript serves the remaining signers); the unlocking script pushes the signatures in order
+//!              (variant 1: each followed by its public key)
 //!     tx       wire bytes of the transaction to sign (the unlocking script of input idx is replaced)
 //!     keys     private keys joined by `,` (64 hex digits each, prefix `u` = uncompressed public key)
 //!     signers  `<key index>.<flag byte, decimal>[.<nonce, 64 hex digits>]` joined by `,`, in signature order (m of them);
@@ -19,12 +20,19 @@
 //!     seps     `_` or positions joined by `,`: an OP_CODESEPARATOR is inserted before element <pos> of the
 //!              plain locking script (pos = number of elements: at the end)
 //!     variant  0: ... OP_CHECKSIG / OP_CHECKMULTISIG      1: ... OP_CHECKSIGVERIFY / OP_CHECKMULTISIGVERIFY OP_1
-//!     -> `OK:<tx hex>;<ext>;<locking script hex>;<subscript hex>`: the signed transaction and the extended fields
+//!     -> `OK:<tx hex>;<ext>;<locking script hex>;<subscript hex>;<checks>`: the signed transaction and the extended fields
 //!        in the format interp.spend takes.  Everything goes through the library's own API (Transaction::sign,
 //!        P2PKHAddress::get_locking_script / get_unlocking_script, SighashSignature::to_bytes, Script::encode_pushdata);
 //!        the subscript handed to Transaction::sign is cut by the driver itself.
+//!        <checks>: eight 0/1 digits about the first signature and the built input, all on the in-memory objects:
+//!          Transaction::verify, Transaction::_verify(.., false), Transaction::_verify(.., true), SighashSignature::to_hex == hex(to_bytes),
+//!          SighashSignature::from_bytes(to_bytes, preimage) gives the same bytes and verifies, SighashSignature::new(Signature::from_der(..),
+//!          flag, preimage) likewise, TxIn::get_finalised_script == unlocking ++ locking bytes, Interpreter::from_transaction + run on the
+//!          transaction object that did the signing (warm hash cache) ends like on a freshly parsed copy
+//!
+//! interp.spend_steps <tx> <idx> <ext>   the same as interp.spend, driven with Iterator::next until None / Err
 use crate::util::*;
-use bsv::{Interpreter, OpCodes, P2PKHAddress, PrivateKey, PublicKey, Script, ScriptBit, SigHash, Transaction};
+use bsv::{Interpreter, OpCodes, P2PKHAddress, PrivateKey, PublicKey, Script, ScriptBit, SigHash, SighashSignature, Signature, Transaction};
 use std::convert::TryFrom;
 
 fn show_items(v: &[Vec<u8>]) -> String {
@@ -106,11 +114,40 @@ pub fn run(op: &str, args: &[String]) -> Option<String> {
                 Err(_) => "ERR".into(),
             }
         }
+        "interp.spend_steps" => {
+            let (txb, idx, ext) = match (arg_bytes(args, 0), arg_u64(args, 1), args.get(2)) {
+                (Some(a), Some(b), Some(c)) => (a, b, c.clone()),
+                _ => return Some("BADARG".into()),
+            };
+            let mut tx = match Transaction::from_bytes(&txb) {
+                Ok(t) => t,
+                Err(_) => return Some("ERR".into()),
+            };
+            match apply_ext(&mut tx, &ext) {
+                None => return Some("BADARG".into()),
+                Some(Err(_)) => return Some("ERR".into()),
+                Some(Ok(())) => {}
+            }
+            let mut it = match Interpreter::from_transaction(&tx, idx as usize) {
+                Ok(i) => i,
+                Err(_) => return Some("ERR".into()),
+            };
+            loop {
+                match it.next() {
+                    None => break,
+                    Some(Ok(_)) => {}
+                    Some(Err(_)) => return Some("ERR".into()),
+                }
+            }
+            let st = it.state();
+            format!("OK:{};{}", show_items(st.stack()), st.codeseparator_offset)
+        }
         "spend.build" => {
             if args.len() != 8 {
                 return Some("BADARG".into());
             }
-            let kind = args[0].as_str();
+            let dummy_first = args[0] == "rawd";
+            let kind = if dummy_first { "raw" } else { args[0].as_str() };
             let (txb, idx, value) = match (arg_bytes(args, 1), arg_u64(args, 2), arg_u64(args, 3)) {
                 (Some(a), Some(b), Some(c)) => (a, b as usize, c),
                 _ => return Some("BADARG".into()),
@@ -226,7 +263,7 @@ pub fn run(op: &str, args: &[String]) -> Option<String> {
                 }
                 "raw" => {
                     let f: Vec<&str> = args[6].split('.').collect();
-                    if f.len() != 2 {
+                    if f.len() < 2 {
                         return Some("BADARG".into());
                     }
                     match expand(f[0]).map(|b| Script::from_bytes(&b)) {
@@ -297,11 +334,23 @@ pub fn run(op: &str, args: &[String]) -> Option<String> {
             txin.set_locking_script(&locking);
             txin.set_unlocking_script(&Script::default());
             tx.set_input(idx, &txin);
+            let mut subs: Vec<Script> = vec![subscript.clone()];
+            if kind == "raw" {
+                let f: Vec<&str> = args[6].split('.').collect();
+                for d in &f[2..] {
+                    match expand(d).map(|b| Script::from_bytes(&b)) {
+                        Some(Ok(s)) => subs.push(s),
+                        Some(Err(_)) => return Some("ERR".into()),
+                        None => return Some("BADARG".into()),
+                    }
+                }
+            }
             let mut sigs = Vec::new();
-            for (ki, flag, nonce) in &signers {
+            for (j, (ki, flag, nonce)) in signers.iter().enumerate() {
+                let sub = &subs[j.min(subs.len() - 1)];
                 let r = match nonce {
-                    Some(k) => tx.sign_with_k(&sks[*ki], k, *flag, idx, &subscript, value),
-                    None => tx.sign(&sks[*ki], *flag, idx, &subscript, value),
+                    Some(k) => tx.sign_with_k(&sks[*ki], k, *flag, idx, sub, value),
+                    None => tx.sign(&sks[*ki], *flag, idx, sub, value),
                 };
                 match r {
                     Ok(s) => sigs.push(s),
@@ -321,7 +370,7 @@ pub fn run(op: &str, args: &[String]) -> Option<String> {
                 }
                 _ => {
                     let mut b: Vec<u8> = Vec::new();
-                    if kind == "ms" {
+                    if kind == "ms" || dummy_first {
                         b.push(0x00);
                     }
                     for (j, s) in sigs.iter().enumerate() {
@@ -360,7 +409,57 @@ pub fn run(op: &str, args: &[String]) -> Option<String> {
                     ext.push("n.n".to_string());
                 }
             }
-            format!("OK:{};{};{};{}", hex::encode(out), ext.join(","), hex::encode(locking.to_bytes()), hex::encode(subscript.to_bytes()))
+            // checks on the in-memory objects
+            let b = |x: bool| if x { '1' } else { '0' };
+            let mut checks = String::new();
+            {
+                let sig0 = &sigs[0];
+                let pk0 = &pks[signers[0].0];
+                let flag0 = signers[0].1;
+                let bytes0 = sig0.to_bytes().unwrap_or_default();
+                checks.push(b(tx.verify(pk0, sig0)));
+                checks.push(b(tx._verify(pk0, sig0, false)));
+                checks.push(b(tx._verify(pk0, sig0, true)));
+                checks.push(b(sig0.to_hex().map(|h| h == hex::encode(&bytes0)).unwrap_or(false)));
+                let pre = tx.sighash_preimage(flag0, idx, &subs[0], value).unwrap_or_default();
+                checks.push(b(match SighashSignature::from_bytes(&bytes0, &pre) {
+                    Ok(rt) => rt.to_bytes().map(|x| x == bytes0).unwrap_or(false) && tx.verify(pk0, &rt),
+                    Err(_) => false,
+                }));
+                checks.push(b(match Signature::from_der(&bytes0[..bytes0.len().saturating_sub(1)]) {
+                    Ok(sg) => {
+                        let n = SighashSignature::new(&sg, flag0, &pre);
+                        n.to_bytes().map(|x| x == bytes0).unwrap_or(false) && tx.verify(pk0, &n)
+                    }
+                    Err(_) => false,
+                }));
+                let mut both = unlocking.to_bytes();
+                both.extend(locking.to_bytes());
+                checks.push(b(txin.get_finalised_script().map(|s| s.to_bytes() == both).unwrap_or(false)));
+                let run_on = |t: &Transaction| -> String {
+                    match Interpreter::from_transaction(t, idx) {
+                        Ok(mut it) => match it.run() {
+                            Ok(()) => format!("OK:{}", show_items(it.state().stack())),
+                            Err(_) => "ERR".into(),
+                        },
+                        Err(_) => "ERR".into(),
+                    }
+                };
+                let warm = run_on(&tx);
+                let cold = match Transaction::from_bytes(&out) {
+                    Ok(mut t2) => {
+                        if let Some(mut i2) = t2.get_input(idx) {
+                            i2.set_satoshis(value);
+                            i2.set_locking_script(&locking);
+                            t2.set_input(idx, &i2);
+                        }
+                        run_on(&t2)
+                    }
+                    Err(_) => "ERR2".into(),
+                };
+                checks.push(b(warm == cold));
+            }
+            format!("OK:{};{};{};{};{}", hex::encode(out), ext.join(","), hex::encode(locking.to_bytes()), hex::encode(subscript.to_bytes()), checks)
         }
         _ => return None,
     })
